@@ -18,9 +18,14 @@ import (
 //	LEB.write  octet i carries value bits 7i..7i+6, the continuation bit is set on all octets but the last.
 //	LEB.inv    ReadLeb128(WriteToLeb128(v)) = (v, k, nil) for every v below 2^32 (classes k = 1..5), also
 //	           when further octets follow the encoding.
+//	LEB.range  a k-octet encoding (k = 1..12, any payload bits) is read back as a value below 2^63.
 //
-// full=false runs LEB.len only (checks that merely rely on the lemma).
-func lebRules(c *Ctx, full bool) int {
+// mode "len" runs LEB.len only (checks that merely rely on the lemma), "range" LEB.range only, "full" all.
+func lebRules(c *Ctx, mode string) int {
+	full := mode == "full"
+	if mode == "range" {
+		return lebRange(c)
+	}
 	p, r := c.Prog, c.R
 	wr := p.Func("codecs/av1/obu.WriteToLeb128")
 	rd := p.Func("codecs/av1/obu.ReadLeb128")
@@ -152,6 +157,42 @@ func lebRules(c *Ctx, full bool) int {
 				detail = "unexpected result shape"
 			}
 			r.Add("LEB.inv", core.FuncName(rd), what, p.Position(rd.Pos()), ok, detail)
+		}
+	}
+	n += lebRange(c)
+	return n
+}
+
+// lebRange: rule LEB.range (see lebRules).
+func lebRange(c *Ctx) int {
+	p, r := c.Prog, c.R
+	rd := p.Func("codecs/av1/obu.ReadLeb128")
+	if rd == nil {
+		missingAnchor(r, "codecs/av1/obu.ReadLeb128")
+		return 0
+	}
+	n := 0
+	// LEB.range: whatever the seven payload bits of each octet are, a k-octet encoding (k = 1..12) is read back as
+	// a value below 2^63, so the conversions int(value) made by the AV1 payloader, depacketizers and the VLA
+	// decoder cannot produce a negative length (the assumed BOUNDS obligations "int(LEB128 value) >= 0" rest on
+	// this; the pinned reader folds at most eight groups of seven bits)
+	for k := 1; k <= 12; k++ {
+		arr := &casei.Array{}
+		for i := 0; i < k; i++ {
+			arr.Elems = append(arr.Elems, casei.Octet(fmt.Sprintf("b%d", i), i < k-1))
+		}
+		m := &casei.Machine{}
+		res, err := m.Run(rd, []casei.Val{{IsSlice: true, Arr: arr, Len: k}})
+		n++
+		what := fmt.Sprintf("a %d-octet encoding is read back as a value below 2^63 (int(value) is never negative)", k)
+		switch {
+		case err != nil:
+			r.Add("LEB.range", core.FuncName(rd), what, p.Position(rd.Pos()), false, "not decided: "+err.Error())
+		case len(res.Tuple) != 3:
+			r.Add("LEB.range", core.FuncName(rd), what, p.Position(rd.Pos()), false, "unexpected result shape")
+		default:
+			v := res.Tuple[0]
+			r.Add("LEB.range", core.FuncName(rd), what, p.Position(rd.Pos()), v.Bits[63].K == casei.Zero, "bit 63 of the value is "+v.Bits[63].String())
 		}
 	}
 	return n
